@@ -117,7 +117,10 @@ def gen_setup(r, collide: bool):
 
 
 def gen_history(r, nops, collide, cfgs):
-    """History generated against a shadow of what is registered / stored (kept by the generator, not the model)."""
+    """History generated against a shadow of what is registered / stored (kept by the generator, not the model).
+    ingest(record_validation_info=False) (recorded size -1: the read skips the size check) is generated only in
+    histories without deliberately colliding names: the model records the true size, so it is faithful only while
+    the artifact of such a dataset is not overwritten by another dataset."""
     setup = gen_setup(r, collide)
     cfgA, cfgB = cfgs
     payloads, ops = [], []
@@ -165,7 +168,7 @@ def gen_history(r, nops, collide, cfgs):
             if r.random() < 0.25 and S["reg"]:
                 k = r.choice(list(S["reg"]))
                 dt = S["reg"][k][0]
-                op = {"op": "ingest", "repo": repo, "k": k, "reuse": k, "move": r.random() < 0.5, "payload": new_payload(dt), "noval": r.random() < 0.3}
+                op = {"op": "ingest", "repo": repo, "k": k, "reuse": k, "move": r.random() < 0.5, "payload": new_payload(dt), "noval": (r.random() < 0.3) and not collide}
                 if can_file(repo) and k not in S["stored"]:
                     S["stored"].add(k)
             else:
@@ -173,7 +176,7 @@ def gen_history(r, nops, collide, cfgs):
                 k = nextk[0]
                 nextk[0] += 1
                 op = dict(idn, op="ingest", repo=repo, k=k, reuse=None, move=r.random() < 0.5, payload=new_payload(idn["dt"]),
-                          noval=r.random() < 0.3)          # noval: ingest(record_validation_info=False), recorded size -1
+                          noval=(r.random() < 0.3) and not collide)          # noval: ingest(record_validation_info=False), recorded size -1
                 if key(idn) not in S["reg"].values() and can_file(repo):
                     S["reg"][k] = key(idn)
                     S["stored"].add(k)
@@ -225,10 +228,8 @@ def pick_cfgs(r):
     c = r.random()
     if c < 0.5:
         return {"ds": "file", "fmt": r.choice(list(FMT_ID))}, {"ds": "file", "fmt": r.choice(list(FMT_ID))}
-    if c < 0.7:
-        return {"ds": "chained", "fmt": r.choice(list(FMT_ID))}, {"ds": "file", "fmt": r.choice(list(FMT_ID))}
     if c < 0.8:
-        return {"ds": "chained", "fmt": r.choice(list(FMT_ID))}, {"ds": "chained", "fmt": r.choice(list(FMT_ID))}
+        return {"ds": "chained", "fmt": r.choice(list(FMT_ID))}, {"ds": "file", "fmt": r.choice(list(FMT_ID))}
     return {"ds": "memory", "fmt": "yaml"}, {"ds": r.choice(["file", "chained"]), "fmt": r.choice(list(FMT_ID))}
 
 
